@@ -139,13 +139,24 @@ fn record(ratio: u64, ops: &[Op], root: &Path) -> Recording {
 /// Reopen the image and judge it.
 fn judge(ratio: u64, dir: &Path, candidates: &[State]) -> Vec<(String, String)> {
     let mut out = vec![];
-    let r = vcore::catch(|| Manifest::open(options(ratio), dir).map(|m| {
+    let mut followup: Vec<String> = vec![];
+    let r = vcore::catch(|| Manifest::open(options(ratio), dir).map(|mut m| {
         let strs: BTreeSet<String> = m.strs().map(|s| s.to_string()).collect();
         let mut info = BTreeMap::new();
         for c in ['I'] {
             if let Some(v) = m.info(c) {
                 info.insert(c, v.to_string());
             }
+        }
+        // keep using the recovered handle: one more edit and one more rollover must leave a
+        // manifest that verifies (fragments consecutive and chained) and reopens to the right state
+        let mut e = Edit::default();
+        let _ = e.add("follow-up");
+        if let Err(err) = m.apply(e) {
+            followup.push(format!("apply after recovery failed: {err}"));
+        }
+        if let Err(err) = m.rollover() {
+            followup.push(format!("rollover after recovery failed: {err}"));
         }
         (strs, info)
     }));
@@ -165,6 +176,27 @@ fn judge(ratio: u64, dir: &Path, candidates: &[State]) -> Vec<(String, String)> 
                     format!("c13:crash:reopened-state:{}", if partial { "edit-partially-applied" } else { "not-a-prefix-state-with-all-acknowledged-edits" }),
                     format!("reopen yields {st:?}; admissible: {candidates:?}"),
                 ));
+            }
+            for f in followup.iter() {
+                out.push((format!("c13:crash:unusable-after-recovery:{}", crashmc_short(f)), f.clone()));
+            }
+            // the follow-up edit is there after another reopen
+            match vcore::catch(|| Manifest::open(options(ratio), dir).map(|m| m.strs().map(|s| s.to_string()).collect::<BTreeSet<String>>())) {
+                Ok(Ok(strs2)) => {
+                    let mut want = st.0.clone();
+                    want.insert("follow-up".to_string());
+                    if strs2 != want && followup.is_empty() {
+                        out.push((
+                            "c13:crash:follow-up-edit-lost-after-second-reopen".into(),
+                            format!("after recovery, one more edit, a rollover and a reopen the manifest holds {strs2:?}, expected {want:?}"),
+                        ));
+                    }
+                }
+                Ok(Err(e)) => out.push((
+                    format!("c13:crash:second-reopen-fails:{}", crashmc_short(&e.to_string())),
+                    format!("after recovery, one more edit and a rollover, reopening fails: {e}"),
+                )),
+                Err(p) => out.push((format!("c13:crash:second-reopen-panic:{}", crashmc_short(&p)), p)),
             }
             // fragments chain: Manifest::verify reports nothing
             let errs: Vec<String> = vcore::catch(|| {
